@@ -50,6 +50,15 @@ type SwitchNet struct {
 	// counters per destination address
 	sent    map[Addr]*atomic.Int64
 	dropped map[Addr]*atomic.Int64
+	// hold: service addresses whose datagrams are kept back (in order) until Release
+	hold    map[Addr]bool
+	held    map[Addr][]heldPacket
+	heldCnt map[Addr]*atomic.Int64
+}
+
+type heldPacket struct {
+	from *Endpoint
+	data []byte
 }
 
 // NewSwitchNet builds an empty network.
@@ -58,6 +67,7 @@ func NewSwitchNet() *SwitchNet {
 		homes: map[Addr]*Endpoint{}, table: map[Addr]*Endpoint{},
 		via:  map[*Endpoint]map[Addr]Addr{},
 		sent: map[Addr]*atomic.Int64{}, dropped: map[Addr]*atomic.Int64{},
+		hold: map[Addr]bool{}, held: map[Addr][]heldPacket{}, heldCnt: map[Addr]*atomic.Int64{},
 	}
 }
 
@@ -97,6 +107,42 @@ func (n *SwitchNet) Serve(addr string, e *Endpoint) {
 	n.mu.Unlock()
 }
 
+// Hold keeps every datagram sent towards the service address back (they are
+// neither delivered nor dropped) until Release: a dial of the address stays in
+// flight for as long as the harness wants, without any timing assumption.
+func (n *SwitchNet) Hold(addr string) {
+	n.mu.Lock()
+	n.hold[Addr(addr)] = true
+	if n.heldCnt[Addr(addr)] == nil {
+		n.heldCnt[Addr(addr)] = &atomic.Int64{}
+	}
+	n.mu.Unlock()
+}
+
+// Held returns how many datagrams towards addr have been kept back so far.
+func (n *SwitchNet) Held(addr string) int64 {
+	n.mu.Lock()
+	c := n.heldCnt[Addr(addr)]
+	n.mu.Unlock()
+	if c == nil {
+		return 0
+	}
+	return c.Load()
+}
+
+// Release ends a Hold: the datagrams kept back are delivered, in order, to
+// whoever serves the address now.
+func (n *SwitchNet) Release(addr string) {
+	n.mu.Lock()
+	delete(n.hold, Addr(addr))
+	q := n.held[Addr(addr)]
+	delete(n.held, Addr(addr))
+	n.mu.Unlock()
+	for _, h := range q {
+		h.from.deliver(h.data, Addr(addr), true)
+	}
+}
+
 // Sent returns how many datagrams were sent towards addr so far (delivered or not).
 func (n *SwitchNet) Sent(addr string) int64 {
 	n.mu.Lock()
@@ -119,15 +165,17 @@ func (n *SwitchNet) Dropped(addr string) int64 {
 	return c.Load()
 }
 
-func (n *SwitchNet) route(from *Endpoint, to Addr) (dst *Endpoint, shownFrom Addr) {
+func (n *SwitchNet) route(from *Endpoint, to Addr, count bool) (dst *Endpoint, shownFrom Addr) {
 	n.mu.Lock()
 	defer n.mu.Unlock()
-	c := n.sent[to]
-	if c == nil {
-		c = &atomic.Int64{}
-		n.sent[to] = c
+	if count {
+		c := n.sent[to]
+		if c == nil {
+			c = &atomic.Int64{}
+			n.sent[to] = c
+		}
+		c.Add(1)
 	}
-	c.Add(1)
 	shownFrom = from.home
 	if t, ok := n.table[to]; ok {
 		dst = t
@@ -206,17 +254,40 @@ func (e *Endpoint) WriteTo(p []byte, addr net.Addr) (int, error) {
 		return 0, net.ErrClosed
 	default:
 	}
-	dst, shown := e.n.route(e, Addr(addr.String()))
-	if dst == nil {
-		return len(p), nil
+	e.deliver(append([]byte(nil), p...), Addr(addr.String()), false)
+	return len(p), nil
+}
+
+// deliver routes one datagram (data is owned by the callee). released = the
+// datagram comes out of a Hold queue (it was counted as sent already).
+func (e *Endpoint) deliver(data []byte, to Addr, released bool) {
+	n := e.n
+	if !released {
+		n.mu.Lock()
+		if n.hold[to] {
+			n.held[to] = append(n.held[to], heldPacket{from: e, data: data})
+			n.heldCnt[to].Add(1)
+			c := n.sent[to]
+			if c == nil {
+				c = &atomic.Int64{}
+				n.sent[to] = c
+			}
+			c.Add(1)
+			n.mu.Unlock()
+			return
+		}
+		n.mu.Unlock()
 	}
-	pk := packet{data: append([]byte(nil), p...), from: shown}
+	dst, shown := n.route(e, to, !released)
+	if dst == nil {
+		return
+	}
+	pk := packet{data: data, from: shown}
 	select {
 	case dst.in <- pk:
 	case <-dst.closed:
 	default: // queue full: drop like a real network
 	}
-	return len(p), nil
 }
 
 // Received returns the number of datagrams read from this endpoint.
